@@ -45,6 +45,7 @@ def run(run: Run, pkg: Package) -> None:
             check_text_reader(run, pkg, "read_lammps_centertype", ndim, style, wl[ndim])
         check_text_reader(run, pkg, "read_lammps_vector", ndim, "x", wl[ndim])
         check_text_reader(run, pkg, "read_lammps", ndim, "x", wl[ndim], light=True)
+    check_dict_order(run, pkg)
     check_additions(run, pkg, wl[3])
     check_gsd(run, pkg, "read_gsd", dcd=False)
     check_gsd(run, pkg, "read_gsd_dcd", dcd=True)
@@ -459,6 +460,56 @@ def check_selection(run, rr, fq, cfg, kws, pstore, tstore, style, ndim):
                 ok = False if (w1[2] == sel) else None
         run.ob("R-ALG", fq, f"{cfg}:positions", ok, "wrapped coordinates of the selected atoms: + L below lo, - L above hi, else unchanged", show(P)[:100],
                witness=None if ok else "a centre one box length outside is not moved back by exactly one box length", loc=loc)
+
+
+def check_dict_order(run, pkg):
+    """The type map is keyed by atom type: a routine that sorts its keys but takes its values in insertion order (or the
+    reverse) pairs keys and values of different entries."""
+    mi = pkg.module("reader.lammps_reader_helper")
+    for fi in mi.functions.values():
+        if "moltypes" not in fi.params:
+            continue
+        it = interp(pkg, fi.qual)
+        fq = short(fi.qual)
+        mt = ("sym", "moltypes")
+        keys_sorted = vals_raw = keys_raw = vals_sorted = None
+        for e in it.events:
+            for v in e.data.values():
+                if not isinstance(v, tuple):
+                    continue
+                for x in walk(v):
+                    if x[0] == "call" and x[1] in ("builtins.sorted", "numpy.sort", "numpy.unique") and x[2]:
+                        inner = x[2][0]
+                        src = [y for y in walk(inner) if y[0] == "call" and y[1] in (".keys", ".values", ".items") and y[2] and y[2][0] == mt] or ([inner] if inner == mt else [])
+                        for y in src:
+                            if y == mt or y[1] == ".keys":
+                                keys_sorted = e
+                            elif y[1] == ".values":
+                                vals_sorted = e
+                    if x[0] == "call" and x[1] == ".values" and x[2] and x[2][0] == mt:
+                        vals_raw = vals_raw or e
+                    if x[0] == "call" and x[1] == ".keys" and x[2] and x[2][0] == mt:
+                        keys_raw = keys_raw or e
+        # raw occurrences that are themselves inside a sort do not count as raw
+        def raw_only(ev, which):
+            if ev is None:
+                return None
+            for v in ev.data.values():
+                if isinstance(v, tuple):
+                    for x in walk(v):
+                        if x[0] == "call" and x[1] == which and x[2] and x[2][0] == mt:
+                            inside = any(z[0] == "call" and z[1] in ("builtins.sorted", "numpy.sort", "numpy.unique") and any(w is x or w == x for w in walk(z)) for v2 in ev.data.values() if isinstance(v2, tuple) for z in walk(v2))
+                            if not inside:
+                                return ev
+            return None
+        vr = raw_only(vals_raw, ".values")
+        bad = keys_sorted is not None and vr is not None and vals_sorted is None
+        if keys_sorted is None and vr is None:
+            continue
+        run.ob("R-SEL", fq, "map-order", not bad, "keys and values of the type map are paired entry by entry (looked up by key, or both taken in the same order)",
+               (f"keys sorted at {key_of(keys_sorted)[:60]}; values in insertion order at {key_of(vr)[:60]}" if bad else "consistent"),
+               witness=None if not bad else "moltypes = {5: 1, 3: 2}: sorted keys [3, 5] are paired with values [1, 2]: atoms of type 5 become molecule type 2",
+               loc=loc_of(it, vr) if bad else fi.loc())
 
 
 # ====================================================================== read_additions
